@@ -173,6 +173,12 @@ def kEx : KernD :=
   [(("public.kern1.O", "public.kern2.E"), -100), (("public.kern1.O", "F"), -200), (("D", "F"), -300),
    (("Q", "public.kern2.E"), -50)]
 
+/-- OUTSIDE the property's domain, for the boundary example in Props/C19.lean: what `groups.pop(n)`
+(a dict method defcon does not override) or `del groups[n]` under `groups.holdNotifications()` does —
+the dict changes and no `Groups.Changed` reaches the object, so nothing is evicted. -/
+def quietErase (s : State) (n : String) : State :=
+  { s with c := { s.c with groups := AL.erase s.c.groups n } }
+
 /-- the cache-introspection answer is the only output the cache-free machine cannot give -/
 def mask : Out → Out
   | .bools _ => .ok
